@@ -980,7 +980,7 @@ Module NVB_C14.
 End NVB_C14.
 
 From SV Require Model.Object Spec.ObjectSpec Proofs.ObjectProofs Proofs.ObjectThms Proofs.ObjectBisimThm
-  Proofs.ObjectConfig Proofs.ObjectTail Instances.ObjectExamples Properties.C15 Properties.C16.
+  Proofs.ObjectConfig Proofs.ObjectTail Proofs.ObjectTailSim Instances.ObjectExamples Properties.C15 Properties.C16.
 
 (** ** C15 / C16: the pipeline history [pipe0] of ObjectExamples (6 walls, 10 patches) *)
 Module NVB_C15.
@@ -1046,7 +1046,7 @@ Module NVB_C15.
 End NVB_C15.
 
 Module NVB_C16.
-  Import Model.Object Spec.ObjectSpec Proofs.ObjectConfig Proofs.ObjectTail Instances.ObjectExamples Properties.C16.
+  Import Model.Object Spec.ObjectSpec Proofs.ObjectConfig Proofs.ObjectTail Proofs.ObjectTailSim Instances.ObjectExamples Properties.C16.
 
   (** C16_final_config_partial: the same per-wall resolution from different table lists / indices
       (table list [tA; tB] with index [1;1;2] vs [tB; tX; tA] with index [3;3;1]) *)
@@ -1119,6 +1119,26 @@ Module NVB_C16.
       object is covered by the bisimulation of C15 instead) *)
   Example cfg_eq_is_leibniz : o_freq (run0 (mats0 ++ [OpFileRoundTrip])) <> o_freq (run0 mats0).
   Proof. vm_compute. intro H. discriminate H. Qed.
+
+  (** C16_final_config_history_independent_sim (the widened statement): a history that went through
+      the whole pipeline and a file AND a dictionary round trip against the plain setter history --
+      NOT related by [cfg_eq], related after normalisation *)
+  Definition hist3 : list op :=
+    mats0 ++ [OpBake; OpInitSource 2; OpExchange 2 10 1 true; OpFileRoundTrip; OpCollect 1 false; OpDictRoundTrip].
+  Example hist3_not_cfg_eq : ~ cfg_eq (orun g0 (init g0) hist1) (orun g0 (init g0) hist3).
+  Proof. intros [_ _ _ _ _ _ H _ _ _ _ _]. vm_compute in H. discriminate H. Qed.
+  Example hist3_cfg_eq_normalised : cfg_eq (norm (orun g0 (init g0) hist1)) (norm (orun g0 (init g0) hist3)).
+  Proof. constructor; vm_compute; reflexivity. Qed.
+  Example final_config_history_independent_sim_applies recv :
+    ocollect g0 (orun g0 (init g0) (hist1 ++ tail 1 1 20 2)) recv false =
+    ocollect g0 (orun g0 (init g0) (hist3 ++ tail 1 1 20 2)) recv false.
+  Proof.
+    destruct (C16_final_config_history_independent_sim g0 hist1 hist3 1 1 20 2 hist3_cfg_eq_normalised) as [_ H].
+    apply H. vm_compute. reflexivity.
+  Qed.
+  (** ... and the collection is not an error value: the tail succeeds and collect answers Ok *)
+  Example sim_tail_runs : fst (ocollect g0 (orun g0 (init g0) (hist3 ++ tail 1 1 20 2)) 1 false) = ROk.
+  Proof. vm_compute. reflexivity. Qed.
 End NVB_C16.
 
 From SV Require Model.Exchange Model.Scene Spec.ExchangeSpec Spec.Isometry Proofs.SceneRefine Proofs.ReceiverProofs
